@@ -112,6 +112,19 @@ class Extract:
         if n.get("k") == "mcall" and n["name"] == "checked_sub":
             a, b = N.norm(n["recv"]), N.norm(n["args"][0])
             return a - b, Rat.atom(e1.cmp_atom("Ge", a, b))
+        if n.get("k") == "blk" and n["b"]["stmts"] and n["b"]["tail"] is not None and n.get("lbl") is None and depth < 3:
+            # a block of pure lets followed by the Option expression (e.g. an inlined helper)
+            sub = dict(env)
+            Ns = e1.Norm(self.c, sub)
+            for st in n["b"]["stmts"]:
+                if st.get("k") == "let" and st["pat"].get("k") == "bind" and st.get("init") is not None and st.get("els") is None:
+                    try:
+                        sub[st["pat"]["hid"]] = e1.Norm(self.c, sub).norm(st["init"])
+                    except ValueError:
+                        return None
+                else:
+                    return None
+            return self.opt_expr(n["b"]["tail"], sub, depth + 1)
         if n.get("k") in ("call", "mcall") and depth < 3:
             callee = n.get("callee", "")
             callee = callee[5:] if callee.startswith("Self:") else callee
@@ -131,7 +144,7 @@ class Extract:
                 Ns = e1.Norm(self.c, sub)
                 for st in b["stmts"]:
                     if st.get("k") == "let" and st["pat"].get("k") == "bind" and st["init"] is not None:
-                        sub[st["pat"]["hid"]] = Ns.norm(st["init"])
+                        sub[st["pat"]["hid"]] = e1.Norm(self.c, sub).norm(st["init"])
                     else:
                         return None
                 if b["tail"] is None:
